@@ -118,7 +118,7 @@ func (eng *Engine) inline(callee *ssa.Function, in ssa.CallInstruction, args, bi
 			delete(e.vals, v)
 		}
 		eng.setResult(e, in, o.Rets)
-		e.gc(nil)
+		e.gc(eng.pinned)
 		k := ""
 		for _, r := range o.Rets {
 			k += e.avKey(r) + "|"
